@@ -124,23 +124,63 @@ Theorem C13_legacy_same_statistic (p n p0 n0 : xq) (s : Q) :
 Proof. exact (legacy_tabs_eq p n p0 n0 s). Qed.
 Print Assumptions C13_legacy_same_statistic.
 
-Theorem C13_legacy_base_without_squared_weights ub : legacy_base ub None = ub.
-Proof. exact (legacy_base_no_squared ub). Qed.
+Theorem C13_legacy_base_without_squared_weights w ub : legacy_base w ub None = ub.
+Proof. exact (legacy_base_no_squared w ub). Qed.
 Print Assumptions C13_legacy_base_without_squared_weights.
 
-(* ... but with squared weights its base is (unweighted N)^2 / sum w^2, which is NOT the
-   effective base: the property is REFUTED for the legacy path (known finding; witness: a column
-   of two respondents of weight 2).
-   Full statement that fails:  forall ws, legacy_base (Fin |ws|) (Some (Fin (sum w^2))) =x=
-   eff_base (Fin (sum w)) (Fin (sum w^2)). *)
-Theorem C13_legacy_effective_base_refuted :
-  exists (ws : list Q),
-    let ub := Fin (inject_Z (Z.of_nat (length ws))) in
-    let w := Fin (qsum ws) in
-    let sq := Fin (qsum (map (fun x => x * x)%Q ws)) in
-    ~ (legacy_base ub (Some sq) =x= eff_base w sq).
-Proof. exact legacy_effective_base_refuted. Qed.
-Print Assumptions C13_legacy_effective_base_refuted.
+(* ... and with squared weights its base is the effective base (sum w)^2 / sum w^2 of the WEIGHTED
+   margin, for every list of respondent weights and whatever the unweighted base (this is the
+   statement that C13_legacy_effective_base_refuted contradicted before repair 5cd12b80) *)
+Theorem C13_legacy_effective_base (ws : list Q) (ub : xq) :
+  ~ (qsum (map (fun x => x * x) ws) == 0)%Q ->
+  legacy_base (Fin (qsum ws)) ub (Some (Fin (qsum (map (fun x => x * x)%Q ws)))) =x=
+  Fin (qsum ws * qsum ws / qsum (map (fun x => x * x) ws))%Q.
+Proof. exact (legacy_effective_base ws ub). Qed.
+Print Assumptions C13_legacy_effective_base.
+
+Theorem C13_legacy_base_is_effective_base w ub sq : legacy_base w ub (Some sq) = eff_base w sq.
+Proof. exact (legacy_base_squared w ub sq). Qed.
+Print Assumptions C13_legacy_base_is_effective_base.
+
+(* legacy statistic == matrix-path statistic with n = W^2 / SQ, cell by cell (display-order
+   matrices, selected display column c), in every row i whose per-cell squared bases SQ[i,.] are
+   the vector the legacy path is given ... *)
+Theorem C13_legacy_matches_matrix_path props W UB SQ sqv c i j (s : Q) :
+  i < nrows props -> j < ncols props -> c < ncols props ->
+  nrows W = nrows props -> ncols W = ncols props ->
+  mnth SQ i j = vnth sqv j -> mnth SQ i c = vnth sqv c ->
+  xadd (prop_var (mnth props i j) (mnth (eff_block W SQ) i j))
+       (prop_var (mnth props i c) (mnth (eff_block W SQ) i c)) = Fin s -> (0 <= s)%Q ->
+  mnth (legacy_t props W UB (Some sqv) c) i j =x=
+  mnth (pw_tblock props (eff_block W SQ) (mcol props c) (mcol (eff_block W SQ) c)) i j.
+Proof. exact (legacy_matches_matrix_path props W UB SQ sqv c i j s). Qed.
+Print Assumptions C13_legacy_matches_matrix_path.
+
+(* ... the vector it is given is the FIRST row of SQ (slice.columns_squared_base): equality in the
+   first row, and in every row of a table whose rows share their column bases (categorical rows) *)
+Theorem C13_legacy_matches_matrix_path_shared_bases props W UB SQ c i j (s : Q) :
+  i < nrows props -> j < ncols props -> c < ncols props ->
+  nrows W = nrows props -> ncols W = ncols props ->
+  mrow SQ i = mrow SQ 0 ->
+  xadd (prop_var (mnth props i j) (mnth (eff_block W SQ) i j))
+       (prop_var (mnth props i c) (mnth (eff_block W SQ) i c)) = Fin s -> (0 <= s)%Q ->
+  mnth (legacy_t props W UB (Some (mrow SQ 0)) c) i j =x=
+  mnth (pw_tblock props (eff_block W SQ) (mcol props c) (mcol (eff_block W SQ) c)) i j.
+Proof. exact (legacy_matches_matrix_path_first_row props W UB SQ c i j s). Qed.
+Print Assumptions C13_legacy_matches_matrix_path_shared_bases.
+
+(* ... REFUTED without the hypothesis  mrow SQ i = mrow SQ 0  (MR rows: every row item has its
+   own bases; open finding C13-legacy-squared-base-first-row-mr): in row i >= 1 the legacy base is
+   W[i,j]^2 / SQ[0,j].
+   Full statement that fails: the theorem above for all i < nrows props. *)
+Theorem C13_legacy_squared_base_first_row_refuted :
+  exists (props W UB SQ : mat) (c i j : nat),
+    i < nrows props /\ j < ncols props /\ c < ncols props /\
+    nrows W = nrows props /\ ncols W = ncols props /\
+    ~ (mnth (legacy_t props W UB (Some (mrow SQ 0)) c) i j =x=
+       mnth (pw_tblock props (eff_block W SQ) (mcol props c) (mcol (eff_block W SQ) c)) i j).
+Proof. exact legacy_squared_base_first_row_refuted. Qed.
+Print Assumptions C13_legacy_squared_base_first_row_refuted.
 
 (* ==== means: Welch ================================================================================ *)
 Theorem C13_welch_formula (m s n m0 s0 n0 : Q) :
@@ -218,35 +258,47 @@ Proof. exact (pval_zero (T df)). Qed.
 Print Assumptions C13_p_self_one.
 
 (* ==== index sets ========================================================================================== *)
-(* (9) the set of a row: exactly the positions j with p_j < alpha and, in only-larger mode,
-   t_j < 0; ascending, without repetition *)
-Theorem C13_indices_def alpha ol pv tv j :
-  In j (indices_row alpha ol pv tv) <->
-  j < length pv /\ xltb (vnth pv j) (Fin alpha) = true /\
+(* (9) the set of a row of selected display column [own]: exactly the positions j OTHER THAN own
+   with p_j < alpha and, in only-larger mode, t_j < 0; ascending, without repetition *)
+Theorem C13_indices_def alpha ol own pv tv j :
+  In j (indices_row alpha ol own pv tv) <->
+  j < length pv /\ j <> own /\ xltb (vnth pv j) (Fin alpha) = true /\
   (ol = true -> xltb (vnth tv j) (Fin 0) = true).
-Proof. exact (indices_row_spec alpha ol pv tv j). Qed.
+Proof. exact (indices_row_spec alpha ol own pv tv j). Qed.
 Print Assumptions C13_indices_def.
 
-Theorem C13_indices_sorted alpha ol pv tv : StronglySorted lt (indices_row alpha ol pv tv).
-Proof. exact (indices_row_sorted alpha ol pv tv). Qed.
+Theorem C13_indices_sorted alpha ol own pv tv : StronglySorted lt (indices_row alpha ol own pv tv).
+Proof. exact (indices_row_sorted alpha ol own pv tv). Qed.
 Print Assumptions C13_indices_sorted.
 
-Theorem C13_indices_rows alpha ol P T i : i < nrows P ->
-  nth i (indices_col alpha ol P T) [] = indices_row alpha ol (mrow P i) (mrow T i).
-Proof. exact (indices_col_row alpha ol P T i). Qed.
+Theorem C13_indices_rows alpha ol own P T i : i < nrows P ->
+  nth i (indices_col alpha ol own P T) [] = indices_row alpha ol own (mrow P i) (mrow T i).
+Proof. exact (indices_col_row alpha ol own P T i). Qed.
 Print Assumptions C13_indices_rows.
 
-(* (10) display positions: the set shown at (row, display column dc) denotes exactly the shown
-   payload columns b significant against the cell's own payload column *)
+(* (10) display positions (a display shows every payload column at most once): the set shown at
+   (row, display column dc) denotes exactly the shown payload columns b, other than the cell's own
+   payload column, significant against the cell's own payload column *)
 Theorem C13_indices_display alpha ol Pm Tm ord row dc b :
-  In b (map (fun dj => nth dj ord 0) (display_set alpha ol Pm Tm ord row dc)) <->
-  In b ord /\
-  sig_cell alpha ol (mnth (Pm (nth dc ord 0)) row b) (mnth (Tm (nth dc ord 0)) row b) = true.
+  NoDup ord -> dc < length ord ->
+  (In b (map (fun dj => nth dj ord 0) (display_set alpha ol Pm Tm ord row dc)) <->
+   In b ord /\ b <> nth dc ord 0 /\
+   sig_cell alpha ol (mnth (Pm (nth dc ord 0)) row b) (mnth (Tm (nth dc ord 0)) row b) = true).
 Proof. exact (display_set_payload alpha ol Pm Tm ord row dc b). Qed.
 Print Assumptions C13_indices_display.
 
-(* (11) equivariance under ANY two displays (reordering, hiding, insertion of columns) *)
+Theorem C13_indices_display_positions alpha ol Pm Tm ord row dc dj :
+  In dj (display_set alpha ol Pm Tm ord row dc) <->
+  dj < length ord /\ dj <> dc /\
+  sig_cell alpha ol (mnth (Pm (nth dc ord 0)) row (nth dj ord 0))
+                    (mnth (Tm (nth dc ord 0)) row (nth dj ord 0)) = true.
+Proof. exact (display_set_spec alpha ol Pm Tm ord row dc dj). Qed.
+Print Assumptions C13_indices_display_positions.
+
+(* (11) equivariance under ANY two displays (reordering, hiding, insertion of columns); the own
+   column of one display corresponds to the own column of the other *)
 Theorem C13_indices_equivariant alpha ol Pm Tm ord ord' row dc dc' b :
+  NoDup ord -> NoDup ord' -> dc < length ord -> dc' < length ord' ->
   nth dc ord 0 = nth dc' ord' 0 -> In b ord -> In b ord' ->
   (In b (map (fun dj => nth dj ord 0) (display_set alpha ol Pm Tm ord row dc)) <->
    In b (map (fun dj => nth dj ord' 0) (display_set alpha ol Pm Tm ord' row dc'))).
@@ -254,6 +306,7 @@ Proof. exact (display_set_equivariant alpha ol Pm Tm ord ord' row dc dc' b). Qed
 Print Assumptions C13_indices_equivariant.
 
 Theorem C13_indices_equivariant_positions alpha ol Pm Tm ord ord' row dc dc' dj dj' :
+  NoDup ord -> NoDup ord' -> dc < length ord -> dc' < length ord' ->
   nth dc ord 0 = nth dc' ord' 0 -> nth dj ord 0 = nth dj' ord' 0 ->
   dj < length ord -> dj' < length ord' ->
   (In dj (display_set alpha ol Pm Tm ord row dc) <->
@@ -261,8 +314,31 @@ Theorem C13_indices_equivariant_positions alpha ol Pm Tm ord ord' row dc dc' dj 
 Proof. exact (display_set_equivariant_pos alpha ol Pm Tm ord ord' row dc dc' dj dj'). Qed.
 Print Assumptions C13_indices_equivariant_positions.
 
-(* (12) the column itself: p = 1 or NaN is never below alpha <= 1; in only-larger mode t = 0 or
-   NaN is never reported *)
+(* (12) the column itself is NEVER reported - for every p, t, alpha and only-larger flag, in every
+   row, at display positions and as payload column *)
+Theorem C13_self_never_reported alpha ol own pv tv : ~ In own (indices_row alpha ol own pv tv).
+Proof. exact (indices_row_self_excluded alpha ol own pv tv). Qed.
+Print Assumptions C13_self_never_reported.
+
+Theorem C13_self_never_reported_rows alpha ol own P T i :
+  ~ In own (nth i (indices_col alpha ol own P T) []).
+Proof. exact (indices_col_self_excluded alpha ol own P T i). Qed.
+Print Assumptions C13_self_never_reported_rows.
+
+Theorem C13_self_never_reported_display alpha ol Pm Tm ord row dc :
+  ~ In dc (display_set alpha ol Pm Tm ord row dc).
+Proof. exact (display_set_self_excluded alpha ol Pm Tm ord row dc). Qed.
+Print Assumptions C13_self_never_reported_display.
+
+Theorem C13_self_never_reported_payload alpha ol Pm Tm ord row dc :
+  NoDup ord -> dc < length ord ->
+  ~ In (nth dc ord 0) (map (fun dj => nth dj ord 0) (display_set alpha ol Pm Tm ord row dc)).
+Proof. exact (display_set_payload_self_excluded alpha ol Pm Tm ord row dc). Qed.
+Print Assumptions C13_self_never_reported_payload.
+
+(* on the column-proportion and means paths the threshold test alone already rejects the column
+   itself: p = 1 or NaN is never below alpha <= 1; in only-larger mode t = 0 or NaN is never
+   reported *)
 Theorem C13_self_excluded_p_one alpha ol t : (alpha <= 1)%Q -> sig_cell alpha ol (Fin 1) t = false.
 Proof. exact (self_excluded_p_one alpha ol t). Qed.
 Print Assumptions C13_self_excluded_p_one.
@@ -276,14 +352,15 @@ Theorem C13_self_excluded_only_larger alpha p :
 Proof. exact (self_excluded_only_larger alpha p). Qed.
 Print Assumptions C13_self_excluded_only_larger.
 
-(* ... REFUTED on the overlap path, which reports p = 0 for a column against itself: with
-   only_larger off the column itself is listed (known finding).
-   Full statement that fails: forall alpha < 1, sig_cell alpha false (p of a column against
-   itself) (Fin 0) = false. *)
-Theorem C13_overlap_self_reported_refuted :
-  exists alpha : Q, (0 < alpha)%Q /\ (alpha < 1)%Q /\ sig_cell alpha false ov_p_self (Fin 0) = true.
-Proof. exact overlap_self_reported_refuted. Qed.
-Print Assumptions C13_overlap_self_reported_refuted.
+(* the overlap path still reports p = 0 (t = 0) for a column against itself, which the threshold
+   test with only_larger off accepts for EVERY alpha > 0 - and the own position is nevertheless not
+   listed (repair 048814c6; replaces C13_overlap_self_reported_refuted) *)
+Theorem C13_overlap_self_not_listed (alpha : Q) ol own pv tv :
+  (0 < alpha)%Q -> vnth pv own = ov_p_self ->
+  sig_cell alpha false (vnth pv own) (Fin 0) = true /\
+  ~ In own (indices_row alpha ol own pv tv).
+Proof. exact (overlap_self_not_listed alpha ol own pv tv). Qed.
+Print Assumptions C13_overlap_self_not_listed.
 
 (* (13) secondary alpha: for EVERY accepted spelling the thresholds are in (0,1) and sorted,
    hence the secondary sets contain the primary ones *)
@@ -293,10 +370,10 @@ Theorem C13_alpha_parse_sound v a alt :
 Proof. exact (alpha_parse_sound v a alt). Qed.
 Print Assumptions C13_alpha_parse_sound.
 
-Theorem C13_alt_superset v a b ol pv tv :
+Theorem C13_alt_superset v a b ol own pv tv :
   alpha_parse v = A_ok a (Some b) ->
-  incl (indices_row a ol pv tv) (indices_row b ol pv tv).
-Proof. exact (alt_superset v a b ol pv tv). Qed.
+  incl (indices_row a ol own pv tv) (indices_row b ol own pv tv).
+Proof. exact (alt_superset v a b ol own pv tv). Qed.
 Print Assumptions C13_alt_superset.
 
 Theorem C13_alt_superset_display (a b : Q) ol Pm Tm ord row dc : (a <= b)%Q ->
@@ -375,20 +452,49 @@ Example C13_example_blocks :
   mnth (nth 4%nat (pw_all 1 P00 P01 [] [] N00 N01 [] []) []) 0%nat 0%nat =x= Fin 4.
 Proof. vm_compute. repeat split; reflexivity. Qed.
 
-(* index sets and display: p-values of selected payload column s in row 0 *)
+(* index sets and display: p-values of selected payload column s in row 0.  Position 0 carries
+   p = 0 (the overlap path's p of a column against itself): it is reported for another own
+   position (own = 3) but never for own = 0 *)
 Example C13_example_indices :
-  let pv := [Fin 1; Fin (1#100); Fin (4#100); NaN; Fin (1#1000)] in
+  let pv := [Fin 0; Fin (1#100); Fin (4#100); NaN; Fin (1#1000)] in
   let tv := [Fin 0; Fin (-3); Fin 2; NaN; Fin (-5)] in
-  indices_row (5#100) true pv tv = [1; 4]%nat /\
-  indices_row (5#100) false pv tv = [1; 2; 4]%nat /\
-  indices_row (2#100) false pv tv = [1; 4]%nat /\
+  vnth pv 0%nat = ov_p_self /\
+  indices_row (5#100) true 0%nat pv tv = [1; 4]%nat /\
+  indices_row (5#100) false 0%nat pv tv = [1; 2; 4]%nat /\
+  indices_row (5#100) false 3%nat pv tv = [0; 1; 2; 4]%nat /\
+  indices_row (5#100) false 1%nat pv tv = [0; 2; 4]%nat /\
+  indices_row (2#100) false 0%nat pv tv = [1; 4]%nat /\
   alpha_parse (Av_list [It_float (1#10); It_float (5#100); It_other]) = A_ok (5#100) (Some (1#10)) /\
   alpha_parse (Av_list [It_float (1#10); It_other]) = A_value_error /\
   let Pm := fun s : nat => [pv] in
   let Tm := fun s : nat => [tv] in
-  display_set (5#100) true Pm Tm [4; 0; 1]%nat 0%nat 1%nat = [0; 2]%nat /\
-  display_set (5#100) true Pm Tm [1; 2; 3; 0]%nat 0%nat 3%nat = [0]%nat.
-Proof. vm_compute. repeat split; reflexivity. Qed.
+  NoDup [4; 0; 1]%nat /\ NoDup [1; 2; 3; 0]%nat /\
+  display_set (5#100) false Pm Tm [4; 0; 1]%nat 0%nat 1%nat = [0; 2]%nat /\
+  display_set (5#100) false Pm Tm [4; 0; 1]%nat 0%nat 0%nat = [1; 2]%nat /\
+  display_set (5#100) true Pm Tm [1; 2; 3; 0]%nat 0%nat 3%nat = [0]%nat /\
+  display_set (5#100) false Pm Tm [1; 2; 3; 0]%nat 0%nat 3%nat = [0; 1]%nat /\
+  display_set (5#100) false Pm Tm [1; 2; 3; 0]%nat 0%nat 2%nat = [0; 1; 3]%nat.
+Proof.
+  vm_compute. repeat split; try reflexivity;
+    repeat (constructor; [simpl; intuition discriminate|]); constructor.
+Qed.
+
+(* legacy path: weighted margins 4, unweighted bases 2 (ignored), squared bases 8 -> n = 2 in both
+   paths; hypotheses of C13_legacy_matches_matrix_path_shared_bases hold in row 1 (shared bases) *)
+Example C13_example_legacy :
+  let props := [[Fin (1#2); Fin (1#4)]; [Fin (1#2); Fin (3#4)]] in
+  let W := [[Fin 4; Fin 4]; [Fin 4; Fin 4]] in
+  let UB := [[Fin 2; Fin 2]; [Fin 2; Fin 2]] in
+  let SQ := [[Fin 8; Fin 8]; [Fin 8; Fin 8]] in
+  mrow SQ 1%nat = mrow SQ 0%nat /\
+  legacy_base (Fin 4) (Fin 2) (Some (Fin 8)) =x= Fin 2 /\
+  xadd (prop_var (mnth props 1%nat 1%nat) (mnth (eff_block W SQ) 1%nat 1%nat))
+       (prop_var (mnth props 1%nat 0%nat) (mnth (eff_block W SQ) 1%nat 0%nat)) = Fin (3584 # 16384) /\   (* 7/32, as evaluated *)
+  (0 <= 3584 # 16384)%Q /\
+  mnth (legacy_t props W UB (Some (mrow SQ 0%nat)) 0%nat) 1%nat 1%nat =x= Fin (2 # 7) /\
+  mnth (pw_tblock props (eff_block W SQ) (mcol props 0%nat) (mcol (eff_block W SQ) 0%nat)) 1%nat 1%nat
+    =x= Fin (2 # 7).
+Proof. vm_compute. repeat split; try reflexivity; discriminate. Qed.
 
 Example C13_example_welch_overlap :
   welch_tabs (Fin 5) (Fin 2) (Fin 8) (Fin 3) (Fin 1) (Fin 4) =x= Fin (16 # 3) /\
